@@ -122,6 +122,17 @@ func Finish(s *sched.Sim, res *Result) {
 	for k, v := range s.ClassFire {
 		res.Classes[k] = v
 	}
+	if s.AutoDensity > 0 {
+		// instrumented build: live points passed, preemptions taken, lock waits parked in the simulator;
+		// the points at which a goroutine was actually preempted count as coverage points
+		res.Classes["auto.live-points-passed"] = s.AutoVisits
+		res.Classes["auto.mutex-waits-parked"] = s.MutexWaits
+		res.Classes["auto.map-loops-ordered-by-the-simulator"] = s.MapLoops
+		for site := range s.AutoSites {
+			res.Cover = append(res.Cover, "preempted-at:"+site)
+		}
+		sort.Strings(res.Cover)
+	}
 	if len(s.Anomalies) > 0 && res.Anomaly == "" {
 		res.Anomaly = strings.Join(s.Anomalies, "; ")
 		res.Verdict = "anomaly"
